@@ -62,11 +62,10 @@ def check_arith(chk, F, traits=("Mul", "Div", "Add", "Sub"), neg=True, types=TYP
                     sp = Spec(ty, absent_set("a", pa) | absent_set("b", pb))
                     key = "%s|%s|%s|presence=%s%s" % (tag, trait.lower(), ty, pres_tag(pa), pres_tag(pb))
                     try:
-                        it = Interp(F, DOMK)
-                        r = it.call_body(body, [sp.operand("a", pa), sp.operand("b", pb)])
                         want = sp.spec_of_real(bases[trait])
-                        compare_parts(chk, key, "%s of two %s == Leibniz/quotient rule of the truncated algebra" % (trait, ty),
-                                      body_loc(F, body), sp, r, want)
+                        for sfx, r, _ in all_paths(F, body, lambda: [sp.operand("a", pa), sp.operand("b", pb)]):
+                            compare_parts(chk, key + sfx, "%s of two %s == Leibniz/quotient rule of the truncated algebra" % (trait, ty),
+                                          body_loc(F, body), sp, r, want)
                         chk.count("operator evaluations")
                     except Unsupported as ex:
                         chk.undecide(key, "unsupported construct: %s" % ex, body_loc(F, body))
@@ -80,10 +79,9 @@ def check_arith(chk, F, traits=("Mul", "Div", "Add", "Sub"), neg=True, types=TYP
                 sp = Spec(ty, absent_set("a", pa))
                 key = "%s|neg|%s|presence=%s" % (tag, ty, pres_tag(pa))
                 try:
-                    it = Interp(F, DOMK)
-                    r = it.call_body(body, [sp.operand("a", pa)])
                     want = sp.spec_of_real(-Poly.var("a.re"))
-                    compare_parts(chk, key, "negation of %s is part-wise" % ty, body_loc(F, body), sp, r, want)
+                    for sfx, r, _ in all_paths(F, body, lambda: [sp.operand("a", pa)]):
+                        compare_parts(chk, key + sfx, "negation of %s is part-wise" % ty, body_loc(F, body), sp, r, want)
                 except Unsupported as ex:
                     chk.undecide(key, "unsupported construct: %s" % ex, body_loc(F, body))
 
